@@ -25,10 +25,14 @@ def _kind(t):
         return "D"
     if t[0] == "L" and len({type(v) for v in t[1:]}) == 1 and type(t[1]) in (int, str, bool):
         return "L"
+    if t[0] == "W":
+        return "W"
     return None
 
 
 def _bound(t, env):
+    if t[0] == "W":
+        return tuple
     if t[0] == "D":
         return env.cls(t[1])
     return type(t[1])
@@ -53,6 +57,14 @@ def _order(t1, t2, env):
         if b1 is b2:
             if k1 == "L" and k2 == "L" and set(t1[1:]) == set(t2[1:]) and len(t1) == len(t2) and list(t1) == list(t2):
                 return 0
+            if k1 == "W" and k2 == "W" and len(t1) == len(t2):
+                # FuncDependentType.__lt__ as pinned: counts of positions where only the other side is a wildcard
+                p1g = sum(a == "*" and b != "*" for a, b in zip(t1[1:], t2[1:]))
+                p2g = sum(b == "*" and a != "*" for a, b in zip(t1[1:], t2[1:]))
+                if p2g and not p1g:
+                    return -1
+                if p1g and not p2g:
+                    return 1
             return None
         if issubclass(b1, b2):
             return -1
